@@ -19,6 +19,7 @@ RULE = (
     "codes enumerated exhaustively over -33100..-31900 and -200..200 for every discovered helper, plus Hypothesis-drawn signed/unsigned "
     "64-bit codes and error shapes; oracle = pinned documented permanent-code set; non-trivial = code is not one of the named constants, "
     "or data present, or message absent; distinct = distinct (helper, code, shape)"
+    "; added in rounds 6-7 of the seeded changes: consecutive calls on one connection (all ordered pairs of named codes); own-token progress before the error with raising / stalling callbacks; logging at DEBUG"
 )
 ASSUMPTIONS = [
     "the documented permanent (non-retryable) set is pinned in this check from errors.py's documentation at the verified commit: "
